@@ -371,14 +371,22 @@ func genC10World(rt *rapid.T) (*c10Case, []string) {
 		if rapid.Bool().Draw(rt, "calleesecret") {
 			secLine = fmt.Sprintf("    secrets:\n      s_%s:\n        required: %s\n", strings.ToLower(R), rapid.SampledFrom([]string{"true", "True", "false"}).Draw(rt, "secreq"))
 		}
-		outLines := fmt.Sprintf("    outputs:\n      o_%s:\n        value: x\n", strings.ToLower(R))
+		// names are case-insensitive: the definition may be spelled differently from the uses
+		outName := "o_" + strings.ToLower(R)
+		switch rapid.IntRange(0, 3).Draw(rt, "outcase") {
+		case 0:
+			outName = strings.ToUpper(outName)
+		case 1:
+			outName = "O_" + strings.ToLower(R)
+		}
+		outLines := fmt.Sprintf("    outputs:\n      %s:\n        value: x\n", outName)
 		switch rapid.IntRange(0, 5).Draw(rt, "calleeouts") {
 		case 0:
 			outLines = "" // no outputs section at all
 		case 1:
 			outLines += "      o_second:\n        value: y\n        description: d\n"
 		}
-		c.Files[callee] = fmt.Sprintf("on:\n  workflow_call:\n    inputs:\n      p_%s:\n        type: %s\n%s%s%s%sjobs:\n  a:\n    runs-on: ubuntu-latest\n    steps:\n      - run: echo ${{ inputs.p_%s }}\n", strings.ToLower(R), ity, reqLine, idef, secLine, outLines, strings.ToLower(R))
+		c.Files[callee] = fmt.Sprintf("on:\n  workflow_call:\n    inputs:\n      "+rapid.SampledFrom([]string{"p", "p", "P"}).Draw(rt, "incase")+"_%s:\n        type: %s\n%s%s%s%sjobs:\n  a:\n    runs-on: ubuntu-latest\n    steps:\n      - run: echo ${{ inputs.p_%s }}\n", strings.ToLower(R), ity, reqLine, idef, secLine, outLines, strings.ToLower(R))
 		if rapid.IntRange(0, 7).Draw(rt, "calleenoinputs") == 0 {
 			// a callee without any interface section
 			c.Files[callee] = "on:\n  workflow_call:\njobs:\n  a:\n    runs-on: ubuntu-latest\n    steps:\n      - run: echo\n"
